@@ -97,7 +97,7 @@ func C04(c *Ctx) {
 		"(A3) pairing with one coin origin: in the mint route Mint(c) ≺ SendModuleToAccount(enterprise→r, c) ≺ Delegate(r→enterprise, c) ≺ locked[r]+=c & total+=c on every success path (the only other success path is the zero-amount early return); in the unlock route every Undelegate(X) is followed on all success paths by locked-=a and spent+=a with a = X or its fee-denom projection; the increment/decrement helpers write both the per-account and the total counter; " +
 		"(A8) no bank error is dropped on those routes; (A5) BlockedAddresses() is built from all maccPerms keys, deletes only non-escrow accounts and is what the bank keeper receives; (A2) genesis import returns normally only when the escrow balance equals TotalLocked. " +
 		"Structural necessary conditions on every path; the numeric Σ-invariants themselves are not decided."
-	r.Rules = []string{"A1.book-writers", "A1.escrow-moves", "A3.mint-route-pairing", "A3.unlock-pairing", "A3.counter-pairs", "A8.bank-errors", "A5.blocked-addresses", "A2.genesis-balance", "A3.lost-update", "A3.stale-element-pointer", "A3.no-stale-writeback"}
+	r.Rules = []string{"A1.book-writers", "A1.escrow-moves", "A3.mint-route-pairing", "A3.unlock-pairing", "A3.counter-pairs", "A8.bank-errors", "A5.blocked-addresses", "A2.genesis-balance", "A3.lost-update", "A3.stale-element-pointer", "A3.element-carry", "A3.no-stale-writeback"}
 	lostUpdateControl(c)
 	r.Floor("functions of enterprise scanned for dropped updates to record copies", lostUpdates(c, "enterprise"), 40)
 	r.Trusted = []string{"bank DelegateCoinsFromAccountToModule / UndelegateCoinsFromModuleToAccount move exactly the given coins or fail", "bank refuses transfers to blocked addresses"}
@@ -402,48 +402,7 @@ func unlockPairing(c *Ctx) {
 	r.Floor("rooted undelegate sites", n, 2)
 	r.Require(n == 2, "A3.unlock-pairing", "site-count", "", "exactly two unlock sites exist (fee fully covered / locked funds used up)", fmt.Sprintf("%d sites", n))
 
-	// helper pairs: whoever writes the per-account counter also writes the total on every success path
-	pairs := [][2]string{{secLocked, secTotLocked}, {secSpent, secTotSpent}}
-	np := 0
-	covered := map[string]bool{}
-	for _, f := range w.Funcs {
-		if w.IsGenerated(f) || ir.IsFixture(f) || !c.Rooted(f) || ir.ModuleOf(f) != "enterprise" || genesisFuncs(c, "INITGEN", "enterprise")[f] {
-			continue
-		}
-		for _, p := range pairs {
-			a := callReaching(c, f, func(e ir.Effect) bool { return e.Kind == "StoreWrite" && e.Section == p[0] })
-			b := callReaching(c, f, func(e ir.Effect) bool { return e.Kind == "StoreWrite" && e.Section == p[1] })
-			as := findInstrs(f, a)
-			bs := findInstrs(f, b)
-			if len(as) == 0 && len(bs) == 0 {
-				continue
-			}
-			// only judge the innermost function that calls the two setters separately
-			sep := false
-			for _, x := range as {
-				if _, isCall := x.(ssa.CallInstruction); isCall && !b(x) && len(w.CalleesOf(x.(ssa.CallInstruction))) > 0 {
-					sep = true
-				}
-			}
-			if !sep {
-				continue
-			}
-			np++
-			covered[p[0]] = true
-			for _, x := range as {
-				bad := 0
-				for _, ret := range w.SuccessReturns(f) {
-					if ir.ReachesFrom(f, x.Block(), ir.InstrIndex(x)+1, ret, ir.Cut{Barrier: b}) {
-						bad++
-					}
-				}
-				r.Require(bad == 0, "A3.counter-pairs", fn(f)+"|"+p[0], pos(c, x), "a per-account counter update is always followed by the matching total update before success", fmt.Sprintf("%d success return(s) skip the total", bad))
-			}
-		}
-	}
-	// (one updater per counter pair is the least there must be: the increment and decrement of the locked pair may share one)
-	_ = np
-	r.Floor("per-account counter / total pairs with a judged updater", len(covered), 2)
+	counterPairs(c)
 	// no counter record is written twice from one read (lost update across the iterations of a block step)
 	ns := 0
 	roots := append(append([]*ssa.Function{}, w.Roots["BEGIN:enterprise"]...), w.Roots["ANTE:enterprise"]...)
@@ -492,7 +451,7 @@ func bankErrors(c *Ctx, module string) {
 	r.Floor("bank-moving call sites with an error result in "+module, n, 4)
 }
 
-func blockedAddresses(c *Ctx, must []string) {
+func blockedAddresses(c *Ctx, must []string, free ...string) {
 	w, r := c.W, c.R
 	f := w.LookupFunc("app.BlockedAddresses")
 	if f == nil {
@@ -652,6 +611,12 @@ func blockedAddresses(c *Ctx, must []string) {
 		_, has := mp[m]
 		r.Require(has && !deleted[m] && !deleted["?"], "A5.blocked-addresses", "blocked|"+m, w.Pos(f.Pos()), "the "+m+" module account is a blocked recipient", fmt.Sprintf("in maccPerms=%v, removed from blocked list=%v (deletions: %s)", has, deleted[m], setStr(deleted)))
 	}
+	// accounts that must stay able to receive: the governance account funds streams through proposals and is refunded when
+	// it cancels them (a blocked sender's cancel aborts at the refund)
+	for _, m := range free {
+		_, has := mp[m]
+		r.Require(has && deleted[m], "A5.blocked-addresses", "receivable|"+m, w.Pos(f.Pos()), "the "+m+" module account is exempt from the blocked list (it can be refunded)", fmt.Sprintf("in maccPerms=%v, removed from blocked list=%v (deletions: %s)", has, deleted[m], setStr(deleted)))
+	}
 	// the bank keeper receives BlockedAddresses()
 	pk := w.Pkg("app")
 	okArg := false
@@ -692,6 +657,16 @@ func genesisBalance(c *Ctx, module string) {
 				continue
 			}
 			n++
+			var isBalL, isHoldL func(x *ir.Expr) bool
+			// "both are empty" is an equality too: the balance and the holdings each found zero on the way
+			zeroOf := func(which *func(*ir.Expr) bool) ir.Matcher {
+				return func(p ir.Pred) bool {
+					if !p.Pol || p.E.Op != "call" || len(p.E.Args) != 1 || !(strings.HasSuffix(p.E.Name, "types.Coins).IsZero") || strings.HasSuffix(p.E.Name, "types.Coins).Empty")) {
+						return false
+					}
+					return *which != nil && (*which)(w.Expand(p.E.Args[0], 3))
+				}
+			}
 			m := func(p ir.Pred) bool {
 				if !p.Pol || p.E.Op != "call" || !strings.HasSuffix(p.E.Name, "types.Coins).IsEqual") || len(p.E.Args) != 2 {
 					return false
@@ -700,6 +675,9 @@ func genesisBalance(c *Ctx, module string) {
 				if os.Getenv("MCDEBUG") == "gb" {
 					fmt.Fprintln(os.Stderr, "genesis-balance IsEqual:", a.String(), "<>", b.String())
 				}
+				return isBalL(a) && isHoldL(b) || isBalL(b) && isHoldL(a)
+			}
+			{
 				isBal := func(x *ir.Expr) bool {
 					return x.Op == "call" && strings.HasSuffix(x.Name, ".GetAllBalances") && x.Any(func(z *ir.Expr) bool {
 						return z.Op == "call" && strings.HasSuffix(z.Name, ".GetModuleAccount") || z.Op == "const" && z.Name == `"`+module+`"`
@@ -714,16 +692,16 @@ func genesisBalance(c *Ctx, module string) {
 					return x.Any(func(z *ir.Expr) bool { return z.Op == "field" && z.Name == "Deposit" }) && !x.Any(func(z *ir.Expr) bool { return z.Op == "call" && strings.HasSuffix(z.Name, ".GetAllBalances") })
 				}
 				// the comparison may sit in a helper that is handed the holdings: judge them as the callers instantiate them
-				isHoldL := func(x *ir.Expr) bool {
+				isHoldL = func(x *ir.Expr) bool {
 					return isHold(x) || liftAll(c, f, x, func(y *ir.Expr) bool { return isHold(w.Expand(y, 3)) })
 				}
-				isBalL := func(x *ir.Expr) bool {
+				isBalL = func(x *ir.Expr) bool {
 					return isBal(x) || liftAll(c, f, x, func(y *ir.Expr) bool { return isBal(w.Expand(y, 3)) })
 				}
-				return isBalL(a) && isHoldL(b) || isBalL(b) && isHoldL(a)
 			}
+			either := func(a, b ir.Matcher) ir.Matcher { return func(p ir.Pred) bool { return a(p) || b(p) } }
 			for i, ret := range ir.Returns(f) {
-				g := w.Guarded(f, ret, m, 1)
+				g := w.Guarded(f, ret, m, 1) || w.Guarded(f, ret, either(m, zeroOf(&isBalL)), 1) && w.Guarded(f, ret, either(m, zeroOf(&isHoldL)), 1)
 				r.Require(g, "A2.genesis-balance", fmt.Sprintf("%s|return%d", fn(f), i), pos(c, ret), "genesis import returns normally only when the module account balance equals the imported holdings", "a return is reachable without the equality check")
 			}
 		}
@@ -879,4 +857,148 @@ func constExact(e *ir.Expr) string {
 		return cst.Value.ExactString()
 	}
 	return ""
+}
+
+// counterDelta: the setter call stores (stored value of the section) ± d; returns the operation ("Add"/"Sub") and d.
+func counterDelta(c *Ctx, call ssa.CallInstruction, section string) (string, *ir.Expr, bool) {
+	w := c.W
+	args := call.Common().Args
+	if len(args) == 0 {
+		return "", nil, false
+	}
+	v := w.Expand(w.ExprOf(args[len(args)-1]), 3)
+	var cands []*ir.Expr
+	x := v
+	for x.Op == "ref" && len(x.Args) == 1 {
+		x = x.Args[0]
+	}
+	if x.Op == "struct" {
+		cands = append(cands, x.Args...)
+	} else {
+		cands = append(cands, x)
+	}
+	var flat []*ir.Expr
+	for _, a := range cands {
+		if a != nil {
+			flat = append(flat, a.Alts()...)
+		}
+	}
+	for _, a := range flat {
+		if a == nil || a.Op != "call" || len(a.Args) != 2 {
+			continue
+		}
+		op := ""
+		switch {
+		case strings.HasSuffix(a.Name, "types.Coin).Add"):
+			op = "Add"
+		case strings.HasSuffix(a.Name, "types.Coin).Sub"):
+			op = "Sub"
+		default:
+			continue
+		}
+		if !a.Args[0].Any(func(z *ir.Expr) bool { return z.Op == "state" && z.Name == section }) {
+			continue
+		}
+		if os.Getenv("MCDEBUG") == "delta" {
+			fmt.Fprintln(os.Stderr, "delta", section, op, a.Args[1])
+		}
+		return op, a.Args[1], true
+	}
+	if os.Getenv("MCDEBUG") == "delta" {
+		fmt.Fprintln(os.Stderr, "delta?", section, v)
+	}
+	return "", nil, false
+}
+
+// counterPairs (A3.counter-pairs): whoever writes a per-account counter also writes its total on every success path, and moves
+// the total by the same amount.
+func counterPairs(c *Ctx) {
+	w, r := c.W, c.R
+	// helper pairs: whoever writes the per-account counter also writes the total on every success path
+	pairs := [][2]string{{secLocked, secTotLocked}, {secSpent, secTotSpent}}
+	np, ndelta := 0, 0
+	covered := map[string]bool{}
+	for _, f := range w.Funcs {
+		if w.IsGenerated(f) || ir.IsFixture(f) || !c.Rooted(f) || ir.ModuleOf(f) != "enterprise" || genesisFuncs(c, "INITGEN", "enterprise")[f] {
+			continue
+		}
+		for _, p := range pairs {
+			a := callReaching(c, f, func(e ir.Effect) bool { return e.Kind == "StoreWrite" && e.Section == p[0] })
+			b := callReaching(c, f, func(e ir.Effect) bool { return e.Kind == "StoreWrite" && e.Section == p[1] })
+			as := findInstrs(f, a)
+			bs := findInstrs(f, b)
+			if len(as) == 0 && len(bs) == 0 {
+				continue
+			}
+			// only judge the innermost function that calls the two setters separately
+			sep := false
+			for _, x := range as {
+				if _, isCall := x.(ssa.CallInstruction); isCall && !b(x) && len(w.CalleesOf(x.(ssa.CallInstruction))) > 0 {
+					sep = true
+				}
+			}
+			if !sep {
+				continue
+			}
+			np++
+			covered[p[0]] = true
+			for _, x := range as {
+				bad := 0
+				for _, ret := range w.SuccessReturns(f) {
+					if ir.ReachesFrom(f, x.Block(), ir.InstrIndex(x)+1, ret, ir.Cut{Barrier: b}) {
+						bad++
+					}
+				}
+				r.Require(bad == 0, "A3.counter-pairs", fn(f)+"|"+p[0], pos(c, x), "a per-account counter update is always followed by the matching total update before success", fmt.Sprintf("%d success return(s) skip the total", bad))
+			}
+			// ... and the total moves by what the account's counter moves by: both new values are (stored value) ± d for one d
+			for _, x := range as {
+				xc, isCall := x.(ssa.CallInstruction)
+				if !isCall || b(x) {
+					continue
+				}
+				op1, d1, ok1 := counterDelta(c, xc, p[0])
+				if !ok1 {
+					continue
+				}
+				for _, y := range bs {
+					yc, isCall := y.(ssa.CallInstruction)
+					if !isCall || a(y) || !ir.ReachesFrom(f, x.Block(), ir.InstrIndex(x)+1, y, ir.Cut{}) && !ir.ReachesFrom(f, y.Block(), ir.InstrIndex(y)+1, x, ir.Cut{}) {
+						continue
+					}
+					op2, d2, ok2 := counterDelta(c, yc, p[1])
+					if !ok2 {
+						continue
+					}
+					ndelta++
+					d1, d2 = cancelCoin(d1), cancelCoin(d2)
+					r.Require(op1 == op2 && ir.EqualExpr(d1, d2), "A3.counter-pairs", fn(f)+"|"+p[0]+"|delta", pos(c, y),
+						"the total moves by exactly what the per-account counter moves by (the total equals the sum of the per-account counters)",
+						fmt.Sprintf("the per-account counter becomes stored.%s(%s), the total stored.%s(%s)", op1, d1, op2, d2))
+				}
+			}
+		}
+	}
+	// (one updater per counter pair is the least there must be: the increment and decrement of the locked pair may share one)
+	_ = np
+	r.Floor("per-account counter / total pairs with a judged updater", len(covered), 2)
+	r.Floor("per-account / total updates whose amounts were compared", ndelta, 1)
+}
+
+// cancelCoin: (a.Add(b)).Sub(a) is b and (a.Add(b)).Sub(b) is a — "the new running total minus the previous one" is the
+// amount that was added.
+func cancelCoin(e *ir.Expr) *ir.Expr {
+	isCoin := func(x *ir.Expr, m string) bool {
+		return x != nil && x.Op == "call" && len(x.Args) == 2 && strings.HasSuffix(x.Name, "types.Coin)."+m)
+	}
+	if isCoin(e, "Sub") && isCoin(e.Args[0], "Add") {
+		a, b := e.Args[0].Args[0], e.Args[0].Args[1]
+		switch {
+		case ir.EqualExpr(a, e.Args[1]):
+			return b
+		case ir.EqualExpr(b, e.Args[1]):
+			return a
+		}
+	}
+	return e
 }
